@@ -202,6 +202,20 @@ CHECKS = {
         technique="Coq proof (interleaving non-interference, induction over schedules) + footprint table regenerated by a "
                   "translator and checked by computation + ThreadSanitizer differential runs",
         ref="6 C16"),
+    "C18": dict(
+        text="Coq (partial): the programs the JIT generators emit (model of the generators in JitModel.v: one instruction per "
+             "kind of lane loop, constants baked in) perform exactly the operations of the vectorised C++ kernels, for every "
+             "mechanism / pattern, every vector length L and every input: forcing and Jacobian functions for any arithmetic "
+             "with a commutative product (C18_forcing_function, C18_jacobian_function), LU decomposition for any arithmetic "
+             "at all (C18_lu_decomposition), linear solve (C18_linear_solve), diagonal shift (C18_diagonal_shift); a cell "
+             "count different from L is rejected by the builder and by every diagonal shift (C18_cell_count_guard) with "
+             "MicmJitErrc::InvalidMatrix as in the regenerated code table. Tie: the real LLVM-compiled functions and JIT-built "
+             "solvers against the model (exact) and against the CPU classes (bit for bit).",
+        note="Partial: LLVM is trusted, not modelled; that a JIT-built solver equals the CPU solver end to end is checked by "
+             "the tie (bitwise), not proved.",
+        technique="Coq proof (generated program = CPU kernel, induction over the tables) + differential tie of the real JIT "
+                  "against the extracted model and the CPU backend",
+        ref="6 C18"),
     "C20": dict(
         text="Coq: every condition named by the property has its documented (category, code) in the error tables "
              "regenerated from util/error.hpp and the enum/category definitions on this run "
